@@ -609,6 +609,10 @@ def run_history(drv, hist, modelled, ctx=None, verbose=False):
         is_modelled = st['op'] in modelled or '*' in modelled
         model = drv.ask('model %d %s %s' % (bi, hist.get('variant', '-'), line)) if is_modelled else None
         model_req = drv.ask('modelreq %s %s' % (hist.get('variant', '-'), line)) if is_modelled else None
+        if is_modelled and ctx is not None:
+            dom = drv.ask('domain %d %s' % (bi, line))
+            ctx.count('theorem_domain:' + {'1 1': 'inside', '0 1': 'arguments-outside', '1 0': 'state-outside',
+                                            '0 0': 'both-outside'}.get(dom, dom))
         log_from = len(ifaces[k].log)
         try:
             ret = op.call(conns[k], tok)
